@@ -143,8 +143,10 @@ def _feed_rules(fn, tag):
                 raise Unsupported("parser.feed(%s) occurs twice in %s" % (what, fn.name))
             feeds[what] = raw
     second = "formatted" if tag == "With" else "field"
-    if sorted(feeds) != sorted(["literal_text", second]):
+    others = [k for k in feeds if k != "literal_text"]
+    if "literal_text" not in feeds or len(others) != 1:
         raise Unsupported("texts fed to the markup parser in %s: %r" % (fn.name, sorted(feeds)))
+    feeds[second] = feeds[others[0]]        # the local holding the formatted value / re-assembled field may have any name
     rec = None
     for node in ast.walk(fn):
         if isinstance(node, ast.Call) and ast.unparse(node.func) == "Colorizer." + fn.name:
@@ -166,34 +168,175 @@ def _feed_rules(fn, tag):
     return out
 
 
-def _field_parts(fn):
-    """the statements that re-assemble a field in _parse_without_formatting, in source order"""
-    parts = []
-    doubled = None
-    slot = {"field_name": "Slot.name", "conversion": "Slot.conv", "format_spec": "Slot.spec"}
+LOOP_VARS = ["literal_text", "field_name", "format_spec", "conversion"]
 
-    def fmt_part(value, guard):
-        # "<pre>%s<post>" % name    |   "<lit>"
-        if isinstance(value, ast.BinOp) and isinstance(value.op, ast.Mod):
-            s = _const_str(value.left)
-            if s.count("%s") != 1 or s.count("%") != 1:
-                raise Unsupported("field part format " + repr(s))
-            pre, post = s.split("%s")
-            nm = ast.unparse(value.right)
-            if nm not in slot:
-                raise Unsupported("field part argument " + nm)
-            return "Part.fmt %s %s %s %s" % (lean_chars(pre), slot[nm], lean_chars(post),
-                                             "none" if guard is None else "(some %s)" % slot[guard])
-        if guard is not None:
-            raise Unsupported("guarded literal part")
-        return "Part.lit %s" % lean_chars(_const_str(value))
 
-    loop = [n for n in ast.walk(fn) if isinstance(n, ast.For)]
-    if len(loop) != 1 or ast.unparse(loop[0].iter) != "formatter.parse(string)":
-        raise Unsupported("loop over formatter.parse(string) not found")
-    if ast.unparse(loop[0].target) != "(literal_text, field_name, format_spec, conversion)":
-        raise Unsupported("loop target " + ast.unparse(loop[0].target))
-    body = loop[0].body
+def _canon_loop(fn):
+    """alpha-normalise the four loop variables of `for a, b, c, d in formatter.parse(string)` to the
+    names of the documented tuple (literal_text, field_name, format_spec, conversion); returns a copy"""
+    import copy
+    fn = copy.deepcopy(fn)
+    loops = [n for n in ast.walk(fn) if isinstance(n, ast.For)]
+    if len(loops) != 1 or ast.unparse(loops[0].iter) not in ("formatter.parse(string)", "Formatter().parse(string)"):
+        raise Unsupported("loop over formatter.parse(string) not found in " + fn.name)
+    tgt = loops[0].target
+    if not (isinstance(tgt, ast.Tuple) and len(tgt.elts) == 4 and all(isinstance(e, ast.Name) for e in tgt.elts)):
+        raise Unsupported("loop target " + ast.unparse(tgt))
+    ren = {e.id: c for e, c in zip(tgt.elts, LOOP_VARS) if e.id != c}
+    if ren:
+        used = {n.id for n in ast.walk(fn) if isinstance(n, ast.Name)} | {a.arg for a in fn.args.args + fn.args.kwonlyargs}
+        if any(c in used and c not in ren for c in ren.values()):
+            raise Unsupported("cannot alpha-normalise the loop variables of " + fn.name)
+        for n in ast.walk(fn):
+            if isinstance(n, ast.Name) and n.id in ren:
+                n.id = ren[n.id]
+    return fn
+
+
+SLOT = {"field_name": "Slot.name", "conversion": "Slot.conv", "format_spec": "Slot.spec"}
+
+
+class _Assembly:
+    """symbolic evaluation of the straight-line code that re-assembles a field: a text is a list of atoms
+    (guard, 'lit', text) | (guard, 'slot', slot) where guard is None or the slot whose truthiness guards it.
+    Understands `"a%sb" % x`, `+`, f-strings, `x if slot else ""`, local aliases, `if slot:` blocks and ONE
+    level of calls to a private straight-line helper of the same class; anything else is Unsupported."""
+
+    def __init__(self, cls, slotof, depth=0):
+        self.cls, self.slotof, self.depth = cls, dict(slotof), depth
+        self.vars = {}
+
+    def ev(self, e, guard):
+        if isinstance(e, ast.Constant) and isinstance(e.value, str):
+            return [(guard, "lit", e.value)] if e.value else []
+        if isinstance(e, ast.Name):
+            if e.id in self.vars:
+                return [(self._and(guard, g), k, v) for g, k, v in self.vars[e.id]]
+            if e.id in self.slotof:
+                return [(guard, "slot", self.slotof[e.id])]
+            raise Unsupported("unknown name in field assembly: " + e.id)
+        if isinstance(e, ast.BinOp) and isinstance(e.op, ast.Add):
+            return self.ev(e.left, guard) + self.ev(e.right, guard)
+        if isinstance(e, ast.BinOp) and isinstance(e.op, ast.Mod):
+            fmt = _const_str(e.left)
+            args = e.right.elts if isinstance(e.right, ast.Tuple) else [e.right]
+            pieces = fmt.split("%s")
+            if "%" in "".join(pieces) or len(pieces) != len(args) + 1:
+                raise Unsupported("field part format " + repr(fmt))
+            out = []
+            for i, a in enumerate(args):
+                out += self.ev(ast.Constant(pieces[i]), guard) + self.ev(a, guard)
+            return out + self.ev(ast.Constant(pieces[-1]), guard)
+        if isinstance(e, ast.JoinedStr):
+            out = []
+            for v in e.values:
+                if isinstance(v, ast.FormattedValue):
+                    if v.conversion != -1 or v.format_spec is not None:
+                        raise Unsupported("f-string conversion/spec in field assembly")
+                    out += self.ev(v.value, guard)
+                else:
+                    out += self.ev(v, guard)
+            return out
+        if isinstance(e, ast.IfExp) and isinstance(e.test, ast.Name) and e.test.id in self.slotof \
+                and isinstance(e.orelse, ast.Constant) and e.orelse.value == "":
+            return self.ev(e.body, self._and(guard, self.slotof[e.test.id]))
+        if isinstance(e, ast.Call):
+            return self.call(e, guard)
+        raise Unsupported("field assembly expression " + ast.unparse(e)[:60])
+
+    @staticmethod
+    def _and(g1, g2):
+        if g1 is None or g1 == g2:
+            return g2
+        if g2 is None:
+            return g1
+        raise Unsupported("nested guards in field assembly")
+
+    def call(self, e, guard):
+        f = ast.unparse(e.func)
+        name = f.split(".")[-1]
+        if self.depth >= 1 or f not in (name, "Colorizer." + name, "self." + name, "cls." + name) or e.keywords:
+            raise Unsupported("call in field assembly: " + ast.unparse(e)[:60])
+        helper = [n for n in self.cls.body if isinstance(n, ast.FunctionDef) and n.name == name]
+        if len(helper) != 1:
+            raise Unsupported("helper %s not found" % name)
+        h = helper[0]
+        params = [a.arg for a in h.args.args if a.arg not in ("self", "cls")]
+        if len(params) != len(e.args) or h.args.kwonlyargs or h.args.vararg or h.args.kwarg:
+            raise Unsupported("helper %s signature" % name)
+        sub = _Assembly(self.cls, {}, self.depth + 1)
+        for p, a in zip(params, e.args):
+            atoms = self.ev(a, None)
+            if len(atoms) == 1 and atoms[0][1] == "slot" and atoms[0][0] is None:
+                sub.slotof[p] = atoms[0][2]
+            else:
+                sub.vars[p] = atoms
+        body = [st for st in h.body if not (isinstance(st, ast.Expr) and isinstance(st.value, ast.Constant))]
+        if not body or not isinstance(body[-1], ast.Return) or body[-1].value is None:
+            raise Unsupported("helper %s does not end with a return" % name)
+        sub.run(body[:-1])
+        return [(self._and(guard, g), k, v) for g, k, v in sub.ev(body[-1].value, None)]
+
+    def run(self, stmts, guard=None):
+        for st in stmts:
+            if isinstance(st, ast.Assign) and len(st.targets) == 1 and isinstance(st.targets[0], ast.Name):
+                if guard is not None:
+                    raise Unsupported("guarded assignment in field assembly")
+                self.vars[st.targets[0].id] = self.ev(st.value, None)
+            elif isinstance(st, ast.AugAssign) and isinstance(st.target, ast.Name) and isinstance(st.op, ast.Add) \
+                    and st.target.id in self.vars:
+                self.vars[st.target.id] = self.vars[st.target.id] + self.ev(st.value, guard)
+            elif isinstance(st, ast.If) and isinstance(st.test, ast.Name) and st.test.id in self.slotof and not st.orelse:
+                self.run(st.body, self._and(guard, self.slotof[st.test.id]))
+            else:
+                raise Unsupported("statement in field assembly: " + ast.unparse(st)[:80])
+
+
+def _atoms_to_parts(atoms):
+    """canonical `Part` list: maximal runs of equal guard, each cut into segments holding one slot"""
+    # merge adjacent literals of equal guard
+    merged = []
+    for g, k, v in atoms:
+        if merged and k == "lit" and merged[-1][1] == "lit" and merged[-1][0] == g:
+            merged[-1] = (g, "lit", merged[-1][2] + v)
+        else:
+            merged.append((g, k, v))
+    parts, i = [], 0
+    while i < len(merged):
+        g = merged[i][0]
+        j = i
+        while j < len(merged) and merged[j][0] == g:
+            j += 1
+        run = merged[i:j]
+        slots = [x for x in run if x[1] == "slot"]
+        if not slots:
+            if g is not None:
+                raise Unsupported("guarded literal part")
+            parts.append("Part.lit %s" % lean_chars("".join(v for _g, _k, v in run)))
+        else:
+            pre, seen = "", 0
+            for idx, (_g, k, v) in enumerate(run):
+                if k == "lit":
+                    pre += v
+                    continue
+                seen += 1
+                post = ""
+                if seen == len(slots):      # trailing literals belong to the last slot of the run
+                    post = "".join(x[2] for x in run[idx + 1:])
+                parts.append("Part.fmt %s %s %s %s" % (lean_chars(pre), v, lean_chars(post),
+                                                       "none" if g is None else "(some %s)" % g))
+                pre = ""
+                if seen == len(slots):
+                    break
+        i = j
+    return parts
+
+
+def _field_parts(fn, cls):
+    """what `_parse_without_formatting` re-assembles for a field and feeds verbatim, as an ordered `Part`
+    list; the brace doubling of the literal.  `fn` has canonical loop variables (`_canon_loop`)."""
+    loop = [n for n in ast.walk(fn) if isinstance(n, ast.For)][0]
+    body = loop.body
     # 1. brace doubling, must come before the literal is fed
     st = body[0]
     ok = (isinstance(st, ast.If) and ast.unparse(st.body[0]) == "literal_text += literal_text[-1]" and len(st.body) == 1
@@ -209,30 +352,34 @@ def _field_parts(fn):
     fld = body[2]
     if not (isinstance(fld, ast.If) and ast.unparse(fld.test) == "field_name is not None" and len(body) == 3):
         raise Unsupported("field branch shape")
-    fed = False
+    asm = _Assembly(cls, SLOT)
+    fed = None
     for st in fld.body:
-        src = ast.unparse(st)
-        if isinstance(st, ast.Assign) and ast.unparse(st.targets[0]) == "field":
-            if parts:
-                raise Unsupported("field assigned twice")
-            parts.append(fmt_part(st.value, None))
-        elif isinstance(st, ast.AugAssign) and ast.unparse(st.target) == "field" and isinstance(st.op, ast.Add):
-            parts.append(fmt_part(st.value, None))
-        elif isinstance(st, ast.If) and ast.unparse(st.test) in slot and len(st.body) == 1 and not st.orelse \
-                and isinstance(st.body[0], ast.AugAssign) and ast.unparse(st.body[0].target) == "field":
-            parts.append(fmt_part(st.body[0].value, ast.unparse(st.test)))
-        elif src == "parser.feed(field, raw=True)":
-            fed = True
-        elif isinstance(st, ast.If) and ast.unparse(st.test) == "field_name == 'message'":
+        if fed is None and isinstance(st, ast.If) and ast.unparse(st.test) in ("field_name == 'message'", "'message' == field_name"):
+            stores = {n.id for n in ast.walk(st) if isinstance(n, ast.Name) and isinstance(n.ctx, ast.Store)}
+            if stores & (set(asm.vars) | set(LOOP_VARS)):
+                raise Unsupported("colour-slot branch assigns to the field text")
             continue  # colour slots (area Markup)
-        elif src.startswith("_, color_tokens = Colorizer._parse_without_formatting(") or \
-                src == "messages_color_tokens.extend(color_tokens)":
-            if not fed:
-                raise Unsupported("recursion before the field is fed")
-        else:
-            raise Unsupported("unexpected statement in field branch: " + src[:80])
-    if not fed or not parts:
+        if isinstance(st, ast.Expr) and isinstance(st.value, ast.Call) and ast.unparse(st.value.func) == "parser.feed":
+            c = st.value
+            if fed is not None or len(c.args) != 1:
+                raise Unsupported("second feed in the field branch")
+            fed = asm.ev(c.args[0], None)
+            continue
+        if fed is None:
+            asm.run([st])
+            continue
+        # after the field is fed: only the recursion into the spec for colour slots
+        if isinstance(st, ast.Assign) and isinstance(st.value, ast.Call) \
+                and ast.unparse(st.value.func) == "Colorizer._parse_without_formatting":
+            continue
+        if isinstance(st, ast.Expr) and isinstance(st.value, ast.Call) and isinstance(st.value.func, ast.Attribute) \
+                and st.value.func.attr in ("extend", "append") and ast.unparse(st.value.func.value) != "parser":
+            continue
+        raise Unsupported("unexpected statement after the field is fed: " + ast.unparse(st)[:80])
+    if not fed:
         raise Unsupported("field is never fed")
+    parts = _atoms_to_parts(fed)
     out = "/-- `literal_text[-1] in %r` -/\ndef doubledChars : Py.Str := %s\n" % (doubled, lean_chars(doubled))
     out += "/-- field re-assembly of `_parse_without_formatting`, in source order -/\n"
     out += "def fieldParts : List Part := [\n  " + ",\n  ".join(parts) + "]\n\n"
@@ -308,8 +455,10 @@ def generate():
     body = "import LoguruModel.Format.Base\nset_option linter.unusedVariables false\nnamespace Format.Gen\nopen Format\n\n"
     try:
         ctree, _ = parse_module("_colorizer.py")
-        pwf = find_func(ctree, "_parse_with_formatting", "Colorizer")
-        pwo = find_func(ctree, "_parse_without_formatting", "Colorizer")
+        from extract_lib import find_class
+        ccls = find_class(ctree, "Colorizer")
+        pwf = _canon_loop(find_func(ctree, "_parse_with_formatting", "Colorizer"))
+        pwo = _canon_loop(find_func(ctree, "_parse_without_formatting", "Colorizer"))
         body += _depth_kernels(pwf, "With")
         body += _depth_kernels(pwo, "Without")
         a = _kwdefault(pwf, "auto_arg_index")
@@ -319,7 +468,7 @@ def generate():
         body += _numbering_rule(pwf)
         body += _feed_rules(pwf, "With")
         body += _feed_rules(pwo, "Without")
-        body += _field_parts(pwo)
+        body += _field_parts(pwo, ccls)
         # prepare_format / prepare_message call the parsers with defaults only
         for name, callee, nargs in (("prepare_format", "Colorizer._parse_without_formatting", 1),
                                     ("prepare_message", "Colorizer._parse_with_formatting", 3)):
